@@ -211,7 +211,7 @@ class Diagram(tensor.Diagram):
             node, = graph.neighbors(output)
             etype = graph.edge_type((node, output))
             hadamard = H if etype == EdgeType.HADAMARD else Id(1)
-            scan, swaps = move(scan, scan.index(node), target)
+            scan, swaps = move(scan, scan.index(node, target), target)
             diagram = diagram >> swaps\
                 >> Id(target) @ hadamard @ Id(len(scan) - target - 1)
         return diagram
